@@ -664,6 +664,9 @@ func c19GraphTheorems(c *Ctx, cs *c19Case, plain *syntax.Ast, base *c19Compiled)
 	all = append(all, pick(rems, n)...)
 	all = append(all, pick(remo, n)...)
 	all = append(all, cand{"removeCalls", "", ""})
+	if base.Ast.Call != nil {
+		all = append(all, cand{"removeOutputsPass", base.Ast.Call.DecId, ""})
+	}
 	for _, cd := range all {
 		newName := "zz_fresh"
 		if cd.op == "renameCallable" {
@@ -689,6 +692,22 @@ func c19GraphTheorems(c *Ctx, cs *c19Case, plain *syntax.Ast, base *c19Compiled)
 		if cd.op == "removeCalls" {
 			e = c19Edit{Op: "removeUnused", Calls: true}
 		}
+		if cd.op == "removeOutputsPass" {
+			// remove_unused_outputs_pass_graph_partial: which hypotheses hold, and whether the whole loop is this one pass
+			e = c19Edit{Op: "removeUnused", Top: []string{cd.callable}}
+			if f["exhausted"] == "true" {
+				for _, h := range []string{"struct", "reach", "nonempty", "shape", "tstruct"} {
+					if f[h] != "true" {
+						r.hist("graph-theorem:removeOutputsPass hypothesis fails: " + h)
+					}
+				}
+				if f["hyp"] == "true" {
+					r.hist("graph-theorem:removeOutputsPass hyp=true outs=" + f["outs"] + " cascaded-ins=" + f["ins"] + " whole-loop-is-one-pass=" + f["onepass"])
+				}
+			} else {
+				r.hist("graph-theorem:removeOutputsPass frontier walk ran out of fuel")
+			}
+		}
 		if f["derived"] != "" {
 			r.hist("graph-theorem:removeInput derived-hyp=" + f["derived"])
 			if f["implies"] != "true" {
@@ -706,7 +725,7 @@ func c19GraphTheorems(c *Ctx, cs *c19Case, plain *syntax.Ast, base *c19Compiled)
 			continue
 		}
 		r.count("graph-thm\x00"+cs.Src+"\x00"+e.String(), f["hyp"] == "true")
-		if f["hyp"] != "true" || cd.op == "renameCallable" {
+		if f["hyp"] != "true" || cd.op == "renameCallable" || (cd.op == "removeOutputsPass" && f["onepass"] != "true") {
 			continue
 		}
 		// the theorem's prediction against the real edit and the real graph
@@ -769,11 +788,11 @@ func c19GraphTheorems(c *Ctx, cs *c19Case, plain *syntax.Ast, base *c19Compiled)
 		if strings.Join(real, "\n") != strings.Join(pred, "\n") {
 			r.hist("graph-theorem:prediction-DIFFERENT")
 			r.violate(Violation{Kind: "property", Key: "C19:graph-theorem:real-graph-differs-from-prediction",
-				What:   "after the real edit " + e.String() + " the real call graph is not the graph before with the parameter renamed (the conclusion of rename_input_graph_partial / rename_output_graph_partial, whose hypothesis holds for this program)",
+				What:   "after the real edit " + e.String() + " the real call graph is not the graph that the call-graph theorem for " + cd.op + " predicts from the graph before (rename_input_graph_partial / rename_output_graph_partial / remove_*_graph_partial / remove_unused_outputs_pass_graph_partial; the hypothesis holds for this program)",
 				Input:  c19Replay{Program: cs.Src, Edit: e, Note: "found in " + cs.Name},
 				Impl:   strings.Join(real, "\n"),
 				Model:  strings.Join(pred, "\n"),
-				Broken: "Props.C19.rename_input_graph / rename_output_graph_partial on the real code"})
+				Broken: "Props.C19 call-graph theorem for " + cd.op + " on the real code"})
 		} else {
 			r.hist("graph-theorem:" + cd.op + ":prediction-equals-real-graph")
 		}
